@@ -65,6 +65,9 @@ BLIND = {  # did the owning check exist, unchanged, before the change was seen?
     'b11-C17': 'yes - caught (C17.R2 / C17.R12 parameter laws for all-negative ranges; C04.R7)',
     'b17-C02': 'yes - MISSED by every check; the graph rewrite simulation had no plan in which the LAST operator and the graph output (-1) are covered by two different groups of one tensor; three such cases added: C02.R7 = C01.R15 = C03.R11 = C19.R11 report it',
     'b17-C05': 'yes - MISSED by every check (the bytes written by quantize_tensor were opaque to the interpreter); tobytes / frombuffer / shifts / or / pad / unsigned wrap are modelled now and C05.R13 decodes the stored bytes: 8 instead of ... bytes, rows shifted',
+    'b18-C03': 'yes - caught (C03.R2 operand-selection table: positions of a repeated operand; whole-pipeline simulation C03.R14 = C01.R16: DEQUANTIZE converts int8 to int8)',
+    'b18-C12': 'yes - MISSED by every check (R4 validated the shipped files against the declared schema and R7 only loads exported recipes, which always carry op_config); C12.R8 hands every shipped recipe file to the repository\'s own load_quantization_recipe on the path interpreter: KeyError for sample_advanced_usage_recipe.json',
+    'b18-C18': 'yes - MISSED by every check (get_constant_tensor_names was a stand-in in the validation simulation); C18.R12 runs the subgraph-indexed helpers on a stand-in interpreter whose two subgraphs number their tensors differently',
     'b17-C19': 'yes - caught (C19.R2 = C01.R8: the op-id map query, run through the class\'s own functions on models with several subgraphs)',
     'b16-C01': 'yes - only ANALYSIS-ERROR (a vertical-optimisation table row forked on the token parameters); C01.R19 = C04.R16: SOFTMAX / LOGISTIC / TANH feeding a CONCATENATION with a wide-range second input - the fixed-range output must keep the kernel parameters',
     'b16-C10': 'yes - missed by C10 (C03 / C04 / C05 / C08 sweeps reported: statistics of a runtime second operand missing); the operator sweep is part of C10 now (C10.R11)',
